@@ -223,6 +223,7 @@ func runC03(c *Ctx) {
 	if !c03Core(c) {
 		return
 	}
+	c03Flow(c)
 	c03Plumbing(c)
 }
 
@@ -568,8 +569,69 @@ func c03Core(c *Ctx) bool {
 }
 
 // c03Plumbing: R5-R6 (reset before optimising, level plumbing).
-func c03Plumbing(c *Ctx) {
-	// ---- R5 fresh facts per compilation unit
+// c03Flow: ordering and path rules over the arms of OptimizeStatements (also evaluated under C15-R9).
+func c03Flow(c *Ctx) {
+	c.rule("C03-R14", "MPT: a flow-insensitive fact map knows nothing about which branch ran: in the if arm of OptimizeStatements every path from the optimisation of the last branch to the next statement invalidates what the then-branch assigns and what the else-branch assigns (invalidate(getModifiedVariables(ThenBlock)) and ...(ElseBlock)), whatever the branches end in. Keeping one branch's facts because the other `always returns` is only as right as that predicate - an inner else-less `if` that returns is not an always-returning block - and the result changes once the route leaves the baseline tier")
+	if os := c.mustFn("C03-R14", compilerPkg, "Optimizer.OptimizeStatements"); os != nil {
+		fromIfField := func(v ssa.Value, field string) bool {
+			return derivesFrom(v, func(z ssa.Value) bool {
+				switch y := z.(type) {
+				case *ssa.UnOp:
+					return loadedFromField(y, "IfStatement", field)
+				case *ssa.Field:
+					if nt := namedOf(y.X.Type()); nt != nil && nt.Obj().Name() == "IfStatement" {
+						return nt.Underlying().(*types.Struct).Field(y.Field).Name() == field
+					}
+				}
+				return false
+			})
+		}
+		var lastBranch ssa.Instruction
+		eachInstr(os, func(_ *ssa.BasicBlock, _ int, ins ssa.Instruction) {
+			cl, ok := ins.(*ssa.Call)
+			if !ok || len(cl.Call.Args) < 2 || callName(cl) != modPath+"/"+compilerPkg+".Optimizer.OptimizeStatements" {
+				return
+			}
+			// the branch optimisation of the general case: the else block itself, not the `live` branch picked for a
+			// constant condition (a phi of the two)
+			if _, isPhi := cl.Call.Args[1].(*ssa.Phi); !isPhi && fromIfField(cl.Call.Args[1], "ElseBlock") && !fromIfField(cl.Call.Args[1], "ThenBlock") {
+				lastBranch = ins
+			}
+		})
+		if lastBranch == nil {
+			c.undecided("C03-R14: the optimisation of an if statement's else branch was not found in OptimizeStatements")
+		} else {
+			var outer *loop
+			for _, lp := range naturalLoops(os) {
+				if lp.body[lastBranch.Block()] && (outer == nil || len(lp.body) > len(outer.body)) {
+					outer = lp
+				}
+			}
+			for _, field := range []string{"ThenBlock", "ElseBlock"} {
+				fld := field
+				isInv := func(x ssa.Instruction) bool {
+					cl, ok := x.(*ssa.Call)
+					if !ok || len(cl.Call.Args) < 2 {
+						return false
+					}
+					sf := staticFn(cl)
+					if sf == nil || !strings.HasPrefix(strings.ToLower(sf.Name()), "invalidate") {
+						return false
+					}
+					return derivesFrom(cl.Call.Args[1], func(z ssa.Value) bool {
+						c2, ok := z.(*ssa.Call)
+						return ok && strings.HasSuffix(callName(c2), ".getModifiedVariables") && fromIfField(c2.Call.Args[0], fld)
+					})
+				}
+				q := &pathQuery{fn: os, stop: isInv, target: func(x ssa.Instruction) bool {
+					return outer != nil && x.Block() == outer.head
+				}}
+				hit, path := q.after(lastBranch)
+				c.ob("C03-R14", fnKey(os)+"#if-arm-forgets-what-"+fld+"-assigns-on-every-path", lastBranch.Pos(), hit == nil && outer != nil, "after an if statement the facts about the variables its "+fld+" assigns survive on some path (a shortcut for branches that `always return`): a later use of the variable is folded to the value one branch left, or to the value from before the if, although the other branch may have run", c.blockPath(path)...)
+			}
+		}
+	}
+
 	c.rule("C03-R13", "ORD: a loop's condition is evaluated before its body, so it is optimised with the facts that hold on entry: in the loop arms of OptimizeStatements the condition (WhileStatement.Condition) is handed to OptimizeExpression before the body is handed to OptimizeStatements - optimised afterwards it is folded with what the body's last statement left behind (`while again { ...; again = false }` becomes `while false`, `while cur != 0 { ...; cur = next }` tests next on entry)")
 	if os := c.mustFn("C03-R13", compilerPkg, "Optimizer.OptimizeStatements"); os != nil {
 		fromField := func(v ssa.Value, typ, field string) bool {
@@ -638,6 +700,10 @@ func c03Plumbing(c *Ctx) {
 		c.floor("C03-R13", 1)
 	}
 
+}
+
+func c03Plumbing(c *Ctx) {
+	// ---- R5 fresh facts per compilation unit
 	c.rule("C03-R5", "MPT: Compiler.Reset re-creates the optimiser's fact maps (assigns a new Optimizer or re-makes all three maps), and every Compile* entry point that calls OptimizeStatements calls Reset first: facts never flow from one compiled unit into the next compiled by the same Compiler")
 	if rs := c.mustFn("C03-R5", compilerPkg, "Compiler.Reset"); rs != nil {
 		fresh := false
